@@ -72,7 +72,11 @@ EncVecInv ==
 \* decode vectors: every text of the bound with the allowed outcomes and what each deviation would do
 DevNames == {"B64PlusSlashShift", "B64PadPanic", "B64LaxPadding"}
 LongTexts == SeqsUpTo({65, 47, PAD}, 9)      \* several groups: A / = up to length 9
-DecVecInit == text \in Texts \cup LongTexts /\ gi = 0 /\ out = <<>> /\ res = "decvec"
+\* texts with non-ASCII characters (UTF-8 bytes of e-acute, FULLWIDTH A, ARABIC-INDIC DIGIT THREE, NBSP) and C0/DEL controls
+OddTexts == { <<81, 81, 195, 169>>, <<195, 169, 61, 61>>, <<239, 188, 161, 65>>, <<217, 163, 65, 65>>, <<65, 65, 194, 160>>,
+              <<81, 81, 61, 61, 194, 160>>, <<65, 65, 65, 127>>, <<65, 65, 65, 0>>, <<10, 65, 65, 65, 65>>, <<65, 65, 65, 65, 10>>,
+              <<65, 65, 65, 65, 13, 10>>, <<9>>, <<195, 169>> }
+DecVecInit == text \in Texts \cup LongTexts \cup OddTexts /\ gi = 0 /\ out = <<>> /\ res = "decvec"
 DecVecInv == PrintT(ToJson([k |-> "dec", t |-> text, allowed |-> DecAllowed(text),
                             plus |-> AlgoDec(text, {"B64PlusSlashShift"}),
                             panic |-> AlgoDec(text, {"B64PadPanic"}),
